@@ -97,7 +97,17 @@ def gen(rng, tier):
             cases.append(("nonws", method, b"websocket", b"Upgrade", dec))
     for upg, conn in ((None, b"Upgrade"), (b"websocket", None), (b"websocket", b"keep-alive"), (b"h2c-not", b"Upgrade"), (b"websocket2", b"Upgrade")):
         cases.append(("nonws", b"GET", upg, conn, ("accept", None, None)))
-    closing = [c for c in cases if c[0] in ("close", "nonws")]
+    # ---- subprotocols offered in several header lines (RFC 6455 11.3.4), accepted one by one; forbidden extra header in any case;
+    # ---- HTTP/2 CONNECT that is not an extended CONNECT to a WebSocket
+    for hv in ("1.1", "2"):
+        for sub in ("chat", "superchat", "nope", None):
+            cases.append(("hs-x", hv, {"split_protos": True}, ("accept", sub, None)))
+        for nm_ in (b"Sec-WebSocket-Protocol", b"SEC-WEBSOCKET-PROTOCOL", b"sec-websocket-Protocol"):
+            cases.append(("hs-x", hv, {}, ("accept", None, [(nm_, b"evil")])))
+    for pv in (None, b"h2c-tunnel", b"WebSocket2", b""):
+        for dec in (("accept", None, None), ("close",)):
+            cases.append(("hs-x", "2", {"h2_protocol": pv}, dec))
+    closing = [c for c in cases if c[0] in ("close", "nonws", "hs-x")]
     hs = [c for c in cases if c[0] != "close"]
     rng.shuffle(hs)
     if tier == "quick":
@@ -108,6 +118,32 @@ def gen(rng, tier):
         n += 1
         if c[0] == "hs":
             yield _hs_case(rng, n, *c[1:])
+        elif c[0] == "hs-x":
+            _, hv, opt, dec = c
+            pr = [b"chat", b"superchat"] if opt.get("split_protos") else None
+            case = _hs_case(rng, n, b"13", "valid", b"Upgrade", b"websocket", hv, pr, None, dec)
+            case["family"] += ".x"
+            if opt.get("split_protos"):
+                case["truth"]["split_protos"] = True
+                if hv == "2":
+                    fb = FrameBuilder()
+                    hdrs = [(b":method", b"CONNECT"), (b":protocol", b"websocket"), (b":scheme", b"http"), (b":path", b"/t%d" % n), (b":authority", b"ws.example"),
+                            (b"sec-websocket-version", b"13"), (b"sec-websocket-protocol", b"chat"), (b"sec-websocket-protocol", b"superchat")]
+                    case["client"] = [["feed", client_preface(fb, {}) + fb.headers(1, hdrs, end_stream=False)], ["settle"]]
+                else:
+                    data = ws.handshake(path=b"/t%d" % n, key=KEY, extra=[(b"Sec-WebSocket-Protocol", b"chat"), (b"Sec-WebSocket-Protocol", b"superchat")])
+                    case["client"] = [["feed", data], ["settle"]]
+            if "h2_protocol" in opt:
+                fb = FrameBuilder()
+                if opt["h2_protocol"] is None:
+                    # an ordinary CONNECT (RFC 7540 8.3): neither :scheme nor :path
+                    hdrs = [(b":method", b"CONNECT"), (b":authority", b"ws.example:80"), (b"sec-websocket-version", b"13")]
+                else:
+                    hdrs = [(b":method", b"CONNECT"), (b":protocol", opt["h2_protocol"]), (b":scheme", b"http"), (b":path", b"/t%d" % n),
+                            (b":authority", b"ws.example"), (b"sec-websocket-version", b"13")]
+                case["client"] = [["feed", client_preface(fb, {}) + fb.headers(1, hdrs, end_stream=False)], ["settle"]]
+                case["truth"]["h2_protocol"] = opt["h2_protocol"] if opt["h2_protocol"] is not None else "absent"
+            yield case
         elif c[0] == "nonws":
             _, method, upg, conn, dec = c
             data = ws.handshake(path=b"/t%d" % n, method=method, upgrade=upg, connection=conn)
@@ -257,6 +293,8 @@ def check(case, obs, tally):
     if t["kind"] == "hs":
         hv = t["hv"]
         valid = t["ver"] == b"13" and (hv == "2" or (hv == "1.1" and t["key"] in ("valid", "dup")))
+        if "h2_protocol" in t:
+            valid = False  # a CONNECT without ':protocol websocket' is not the extended CONNECT of RFC 8441
         tally.clause("validity")
         if http_starts:
             out.append({"clause": "validity", "sig": "C11.classified-as-http", "detail": "a websocket opening started an http application"})
@@ -290,7 +328,7 @@ def check(case, obs, tally):
             sub, extra = dec[1], dec[2]
             offered = [p.decode() for p in (t["protos"] or [])]
             bad_sub = sub is not None and sub not in offered
-            bad_hdr = bool(extra) and any(n == b"sec-websocket-protocol" or n.startswith(b":") for n, _ in extra)
+            bad_hdr = bool(extra) and any(bytes(n).strip().lower() == b"sec-websocket-protocol" or n.startswith(b":") for n, _ in extra)
             if bad_sub or bad_hdr:
                 if status in (101, 200) and (hv != "2" or status == 200) and _accepted(status, hv):
                     out.append({"clause": "decision", "sig": "C11.accepted-invalid-accept/%s" % ("subprotocol" if bad_sub else "header"),
